@@ -15,7 +15,7 @@ FUNCTIONS = ['emd.sift.get_next_imf', 'emd.sift.interp_envelope', 'emd.sift.get_
              'emd.support.EMDSiftCovergeError']
 BOUNDS = {
     'quick': 'get_next_imf on N = 6 unbounded symbolic reals vs an executable specification of the iterate sequence: stop in {fixed with '
-             'symbolic count 1..2, sd with symbolic threshold (limit 1..2), rilling default thresholds (limit 1)}, step in {1, 1/2, symbolic in (0,1] '
+             'symbolic count 1..2, sd with symbolic threshold (limit 1..2), rilling with default and non-default (0.1, 0.6, 0.3) thresholds (limits 1..2)}, step in {1, 1/2, symbolic in (0,1] '
              '(fixed stop)}, splrep exact / pchip, pad width 2 (and 1); unit clauses: sd_stop on arrays <= 3, rilling_stop on envelope arrays '
              '<= 4 with default and symbolic thresholds (<= 3), fixed_stop for symbolic counts; energy clause with log10 uninterpreted',
     'thorough': 'N <= 7 (fixed), limits 1..3, rilling_stop unit up to length 6 (the length at which C01/C02/C03 use the formula cut)',
@@ -41,11 +41,12 @@ def configs(tier):
     def cfg(n, stop, step, interp, w, lim, **kw):
         d = {'kind': 'gni', 'N': n, 'stop': stop, 'step': step, 'interp': interp, 'w': w, 'limit': lim}
         d.update(kw)
-        return ('gni-N%d-%s-step%s-%s-w%d-lim%s' % (n, stop, step, interp, w, lim), d)
+        return ('gni-N%d-%s-step%s-%s-w%d-lim%s%s' % (n, stop, step, interp, w, lim, '-thr%s' % (kw['rthr'],) if 'rthr' in kw else ''), d)
     if q:
         out += [cfg(5, 'fixed', '1', 'splrep', 2, 'sym2'), cfg(6, 'fixed', '1', 'splrep', 2, 'sym2'),
                 cfg(6, 'fixed', 'sym', 'splrep', 1, 2), cfg(6, 'fixed', '1/2', 'pchip', 2, 2),
-                cfg(6, 'rilling', '1', 'splrep', 2, 1), cfg(6, 'sd', '1/2', 'splrep', 2, 'sym2', _budget_s=45)]
+                cfg(6, 'rilling', '1', 'splrep', 2, 1), cfg(6, 'rilling', '1/2', 'splrep', 2, 2, rthr=(0.1, 0.6, 0.3)),
+                cfg(6, 'sd', '1/2', 'splrep', 2, 'sym2', _budget_s=45)]
         out += [('unit-sd-3', {'kind': 'unit-sd', 'n': 3}), ('unit-fixed', {'kind': 'unit-fixed'}),
                 ('unit-rilling-4', {'kind': 'unit-rilling', 'n': 4, 'sym': False}),
                 ('unit-rilling-3-symthresh', {'kind': 'unit-rilling', 'n': 3, 'sym': True}),
@@ -54,7 +55,7 @@ def configs(tier):
         out += [cfg(6, 'fixed', '1', 'splrep', 2, 'sym3'), cfg(7, 'fixed', '1', 'splrep', 2, 2),
                 cfg(6, 'fixed', 'sym', 'splrep', 1, 2), cfg(6, 'fixed', 'sym', 'splrep', 3, 3),
                 cfg(6, 'fixed', '1/2', 'pchip', 2, 3), cfg(6, 'fixed', '1', 'mono_pchip', 1, 2),
-                cfg(6, 'rilling', '1', 'splrep', 2, 2), cfg(6, 'rilling', '1/2', 'splrep', 1, 'sym2'),
+                cfg(6, 'rilling', '1', 'splrep', 2, 2), cfg(6, 'rilling', '1/2', 'splrep', 1, 'sym2'), cfg(6, 'rilling', '1', 'splrep', 2, 2, rthr=(0.1, 0.6, 0.3)),
                 cfg(6, 'sd', '1/2', 'splrep', 2, 'sym2'), cfg(6, 'sd', '1', 'splrep', 2, 3)]
         out += [('unit-sd-4', {'kind': 'unit-sd', 'n': 4}), ('unit-fixed', {'kind': 'unit-fixed'}),
                 ('unit-rilling-5', {'kind': 'unit-rilling', 'n': 5, 'sym': False}),
@@ -214,7 +215,7 @@ def get_opts(h):
         thr = h.real('sd_thresh', lo=0, hi=1, lo_open=True, hi_open=True)
         imf_opts['sd_thresh'] = thr
     elif stop == 'rilling':
-        thr = (0.05, 0.5, 0.05)
+        thr = h.params.get('rthr', (0.05, 0.5, 0.05))
         imf_opts['rilling_thresh'] = thr
     return imf_opts, max_iters, step, thr
 
